@@ -16,6 +16,8 @@ struct State {
     connects: Vec<SocketAddr>,
     /// refuse the real connect for these addresses with ECONNREFUSED (keeps runs hermetic)
     refuse_real_connect: bool,
+    /// fail the connect to these addresses with the given OS error
+    connect_errnos: HashMap<SocketAddr, i32>,
 }
 
 static STATE: Lazy<Mutex<State>> = Lazy::new(Default::default);
@@ -40,6 +42,15 @@ pub fn lookup_count(host_port: &str) -> usize {
 
 pub fn take_connects() -> Vec<SocketAddr> {
     std::mem::take(&mut STATE.lock().unwrap().connects)
+}
+
+/// Make the connect to `peer` fail with the OS error `errno` (`None` removes the script)
+pub fn script_connect_error(peer: SocketAddr, errno: Option<i32>) {
+    let mut st = STATE.lock().unwrap();
+    match errno {
+        Some(e) => st.connect_errnos.insert(peer, e),
+        None => st.connect_errnos.remove(&peer),
+    };
 }
 
 pub fn set_refuse_real_connect(x: bool) {
@@ -75,6 +86,9 @@ pub(crate) async fn lookup_host(host_port: String) -> io::Result<std::vec::IntoI
 pub(crate) fn observe_connect(peer: &SocketAddr) -> Option<io::Error> {
     let mut st = STATE.lock().unwrap();
     st.connects.push(*peer);
+    if let Some(e) = st.connect_errnos.get(peer) {
+        return Some(io::Error::from_raw_os_error(*e));
+    }
     st.refuse_real_connect
         .then(|| io::Error::from_raw_os_error(libc::ECONNREFUSED))
 }
